@@ -7,6 +7,7 @@
 package main
 
 import (
+	"encoding/json"
 	"fmt"
 	"os"
 )
@@ -19,6 +20,13 @@ func main() {
 	switch os.Args[1] {
 	case "replay":
 		replay(os.Args[2:])
+	case "routes": // number of constructor routes per type (NRoutes of AttrSet.tla)
+		m := map[string]int{}
+		for _, t := range routeTypes {
+			m[t] = nRoutes(t)
+		}
+		b, _ := json.Marshal(m)
+		fmt.Println(string(b))
 	case "iter":
 		iterReplay(os.Args[2:])
 	case "random":
